@@ -78,6 +78,20 @@ fn feature(script: &Script, key: &str) -> Feature {
     }
 }
 
+/// `feed <hex> @<port>`: the octets arrive as a datagram from 127.0.0.1:<port> (hook H7)
+fn announce(op: &[String], len: usize) {
+    if let Some(p) = op.get(2).and_then(|x| x.strip_prefix('@')) {
+        crate::util::verif_trace::push_phys_addr(p.parse::<u16>().expect("port"), len);
+    }
+}
+
+fn phys_text(a: PhysAddr) -> String {
+    match a {
+        PhysAddr::None => "@none".to_string(),
+        PhysAddr::Udp(x) => format!("@{}", x.port()),
+    }
+}
+
 /// link::reader::Reader::read_frame, one queued physical read per `feed`
 pub(crate) async fn run_link(script: &Script, obs: &mut Vec<String>) {
     let level = decode_level(script);
@@ -86,11 +100,15 @@ pub(crate) async fn run_link(script: &Script, obs: &mut Vec<String>) {
     let (mock, mut handle) = sfio_tokio_mock_io::mock();
     let mut io = PhysLayer::Mock(mock);
     let mut payload = FramePayload::new();
+    let phys = script.cfg_u64("phys", 0) == 1;
+    crate::util::verif_trace::clear_phys_addrs();
 
     'ops: for op in &script.ops {
         match op[0].as_str() {
             "feed" => {
-                handle.read(&unhex(&op[1]));
+                let bytes = unhex(&op[1]);
+                announce(op, bytes.len());
+                handle.read(&bytes);
                 loop {
                     let res = tokio::time::timeout(
                         Duration::from_millis(1),
@@ -99,12 +117,13 @@ pub(crate) async fn run_link(script: &Script, obs: &mut Vec<String>) {
                     .await;
                     match res {
                         Err(_) => break, // reader waits for more bytes
-                        Ok(Ok((header, _addr))) => obs.push(format!(
-                            "frame {} {} {} {}",
+                        Ok(Ok((header, addr))) => obs.push(format!(
+                            "frame {} {} {} {}{}",
                             header.control.to_u8(),
                             header.destination.value(),
                             header.source.value(),
-                            hex(payload.get())
+                            hex(payload.get()),
+                            if phys { format!(" {}", phys_text(addr)) } else { String::new() }
                         )),
                         Ok(Err(err)) => {
                             obs.push(format!("err {}", err_text(&err)));
@@ -198,11 +217,15 @@ pub(crate) async fn run_treader(script: &Script, obs: &mut Vec<String>) {
     };
     let (mock, mut handle) = sfio_tokio_mock_io::mock();
     let mut io = PhysLayer::Mock(mock);
+    let phys = script.cfg_u64("phys", 0) == 1;
+    crate::util::verif_trace::clear_phys_addrs();
 
     'ops: for op in &script.ops {
         match op[0].as_str() {
             "feed" => {
-                handle.read(&unhex(&op[1]));
+                let bytes = unhex(&op[1]);
+                announce(op, bytes.len());
+                handle.read(&bytes);
                 loop {
                     let res =
                         tokio::time::timeout(Duration::from_millis(1), reader.read(&mut io, level))
@@ -212,11 +235,12 @@ pub(crate) async fn run_treader(script: &Script, obs: &mut Vec<String>) {
                         Err(_) => break,
                         Ok(Ok(())) => match reader.pop() {
                             Some(TransportData::Fragment(f)) => obs.push(format!(
-                                "frag {} {} {} {}",
+                                "frag {} {} {} {}{}",
                                 f.info.id,
                                 f.info.addr.link.raw_value(),
                                 bcast_text(f.info.broadcast),
-                                hex(f.data)
+                                hex(f.data),
+                                if phys { format!(" {}", phys_text(f.info.addr.phys)) } else { String::new() }
                             )),
                             Some(TransportData::LinkLayerMessage(m)) => obs.push(format!(
                                 "llmsg {} {}",
